@@ -47,8 +47,8 @@ def conn_case(B, maxc, segs, scripts, rscript=(), wscript=(), vectored=1, stop_a
     return "conn_run " + " ".join(fmt_arg(x) for x in args)
 
 
-def req_new_case(B, maxc, wire, script, rscript=(), wscript=(), vectored=1, preselect=0):
+def req_new_case(B, maxc, wire, script, rscript=(), wscript=(), vectored=1, preselect=0, leak=0):
     """the public constructors used by hand: request::Parser -> into_stream_parser [-> set_stream(preselect)] -> Request::new -> handler
     script -> Request::close (harness mode req_new)"""
-    args = [[B, maxc, vectored, preselect], list(rscript), list(wscript), list(wire), hscript(script)]
+    args = [[B, maxc, vectored, preselect, leak], list(rscript), list(wscript), list(wire), hscript(script)]
     return "req_new " + " ".join(fmt_arg(x) for x in args)
